@@ -1,12 +1,15 @@
 (** C09: every history of supported public edits that respects "well-formed use" keeps the graph consistent. *)
 From Coq Require Import List Arith Bool String Lia.
-From KV Require Import Model.Circuit Model.CircuitInv Proofs.CircuitBase Proofs.CircuitProofs Proofs.CircuitCopy Proofs.CircuitElim Proofs.CircuitDangling.
+From KV Require Import Model.Circuit Model.CircuitInv Proofs.CircuitBase Proofs.CircuitProofs Proofs.CircuitCopy Proofs.CircuitElim Proofs.CircuitDangling
+     Proofs.CircuitResolve.
 Import ListNotations.
 Local Open Scope list_scope.
 
-(* the edits whose step theorem is proved for all inputs *)
+(* the edits whose step theorem is proved for all inputs: all twelve *)
 Definition supported (o : op) : bool :=
-  primitive o || match o with Copy | PickleRoundTrip | Eliminate1to1 | RemoveDangling _ => true | _ => false end.
+  primitive o || match o with Copy | PickleRoundTrip | Eliminate1to1 | RemoveDangling _ | Substitute _ _ | ResolveTlib _ => true | _ => false end.
+Lemma supported_all : forall o, supported o = true.
+Proof. destruct o; reflexivity. Qed.
 
 Lemma io_ok_of_live : forall c, IoLive c -> io_ok_b c = true.
 Proof.
@@ -68,6 +71,10 @@ Proof.
     apply mem_In in Hp. destruct (remove_dangling_step c n HI Hp) as [c' [A [B C]]]. exists c'. auto.
   - (* Eliminate1to1 *)
     destruct (eliminate_inv c HI Hp) as [c' [A [B C]]]. exists c'. auto.
+  - (* Substitute *)
+    apply substitute_inv; auto.
+  - (* ResolveTlib *)
+    apply resolve_inv; auto.
   - (* Copy *)
     destruct (copy_inv c HI Hp) as [c' [A [B [_ C]]]]. exists c'. auto.
   - (* PickleRoundTrip *)
@@ -82,6 +89,8 @@ Proof.
   - destruct o; try discriminate; cbn [step pre] in *.
     + apply mem_In in Hp. destruct (remove_dangling_step c n HI Hp) as [c' [A [B _]]]. exists c'. auto.
     + destruct (eliminate_inv c HI Hp) as [c' [A [B _]]]. exists c'. auto.
+    + destruct (substitute_inv_gen c n impl HI Hp) as [c' [A [B _]]]. exists c'. auto.
+    + destruct (resolve_inv_gen c t HI Hp) as [c' [A [B _]]]. exists c'. auto.
     + destruct (copy_inv c HI Hp) as [c' [A [B _]]]. exists c'. auto.
     + destruct (pickle_inv c HI Hp) as [c' [A [B _]]]. exists c'. auto.
 Qed.
@@ -104,6 +113,14 @@ Qed.
 Lemma io_live_empty : IoLive empty.
 Proof. intros e []. Qed.
 
+(* all twelve operations are covered: no side condition on the kind of operation is left *)
+Theorem history_inv_all : forall ops, hist_pre empty ops = true ->
+  exists c, run_hist ops = Some c /\ CInv c /\ IoLive c /\ io_ok_b c = true.
+Proof.
+  intros ops Hp. apply (history_inv_io ops empty cinv_empty io_live_empty); auto.
+  apply forallb_forall. intros o _. apply supported_all.
+Qed.
+
 (** non-vacuity: the 12-step history continued by a 1:1 fork, its elimination, a copy and a pickle round trip *)
 Definition example_history2 : list op :=
   example_history ++
@@ -121,3 +138,15 @@ Example example_history2_effect :
   = Some (["a"; "z"; "b"],
           Some ([("a", FORK); ("z", FORK); ("b", FORK)], [], [0; 2]))%string.
 Proof. vm_compute. reflexivity. Qed.
+
+(** non-vacuity with substitute / resolve_tlib_cells: the instance "u" of CircuitResolve.host_two is built by the history, its output Z
+    stays unconnected; substitute copies AND2/INV1 in and the deferred clean-up removes the inverter again; then resolve_tlib_cells
+    replaces the BUF1 reader by the library buffer *)
+Definition example_history3 : list op :=
+  [ AddNode "u" "CELLA"; AddNode "a" FORK; AddNode "b" FORK; AddLine 1 None 0 (Some 0); AddLine 2 None 0 (Some 1);
+    AddNode "y" FORK; AddLine 0 (Some 0) 3 None; AddNode "r" "BUF1"; AddLine 3 None 4 None; SetIO 0 1; SetIO 1 2;
+    Substitute 0 impl_two; ResolveTlib [("BUF1", impl_buf)]; Eliminate1to1; Copy ]%string.
+Lemma example_history3_pre : hist_pre empty example_history3 = true.
+Proof. vm_compute. reflexivity. Qed.
+Example example_history3_inv : exists c, run_hist example_history3 = Some c /\ CInv c /\ IoLive c /\ io_ok_b c = true.
+Proof. apply history_inv_all. exact example_history3_pre. Qed.
